@@ -112,7 +112,8 @@ def _retag(e, names, tag):
 class Expander:
     LIMIT = 20000
 
-    def __init__(self, fi, subst=None, inline=None, pure=None, minmax=True, path_conds=True):
+    def __init__(self, fi, subst=None, inline=None, pure=None, minmax=True, path_conds=True, opaque=()):
+        self.opaque = set(opaque)  # locals that are never replaced by their definitions
         self.fi = fi
         self.cfg = cfg_of(fi)
         self.subst = subst or {}
@@ -296,7 +297,7 @@ class Expander:
         if e.id in self.subst:
             return [(self.subst[e.id], ())]
         ws = self.writes(e.id)
-        if not ws:
+        if not ws or e.id in self.opaque:
             return [(e, ())]
         defs, entry = self.reaching(e.id, nid)
         if entry or not defs:
